@@ -14,57 +14,69 @@
 (*       alloc <= AllocK + AllocC * |in|   (alloc is an 8-byte little-endian tuple). *)
 (*       A record with "crash" (the driver process died inside this case) is bad.    *)
 (*                                                                                  *)
-(* A deviation slug is "<why>:<ty>"; it excuses exactly that failure class of that   *)
-(* type when listed in KnownDeviations.                                              *)
+(* Failures are reported as "<why>:<ty>".  Named deviations (open findings, enabled   *)
+(* only when their slug is in KnownDeviations) excuse one narrowly guarded class:    *)
+(*   metacode_empty_input   MetaCode.Decode accepts the EMPTY input as the empty     *)
+(*                          MetaCode (whose encoding is the single octet 00)         *)
 EXTENDS Schema, Json, SequencesExt
 CONSTANTS TraceFile, ResultFile, KnownDeviations, CheckAlloc, AllocK, AllocC
 VARIABLES l, devs, bad
 
-Trace == ndJsonDeserialize(TraceFile)
-
 HasField(e, f) == f \in DOMAIN e
 
+\* Values that are used several times are bound with a singleton-set quantifier ({x \in {expr} : ...}, UNION {f(x) : x \in {expr}}):
+\* TLC evaluates the bound expression once, whereas a LET definition inside an operator is re-evaluated at every use.
+
 \* set of failure labels of an rt record
-JudgeRT(e) ==
-  LET ty == Schema[e.ty]
-      cv == Canon(ty, e.v) IN
+JudgeRT3(e, ty, cv, want) ==
+  (IF Len(e.encs) > 1 THEN {"nondeterministic_encoding"} ELSE {})
+  \cup (IF \E x \in 1..Len(e.encs) : e.encs[x] # want THEN {"encoding_differs_from_schema"} ELSE {})
+  \cup (IF e.panic # "" THEN {"panic"}
+        ELSE IF ~e.ok THEN {"decoder_rejects_own_encoding"}
+        ELSE (IF e.consumed # -1 /\ e.consumed # Len(e.encs[1]) THEN {"consumed_differs"} ELSE {})
+             \cup (IF Canon(ty, e.dec) # cv THEN {"decoded_value_differs"} ELSE {}))
+JudgeRT2(e, ty, cv) ==
   IF ~Valid(ty, cv) THEN {"generated_value_not_wellformed"}
   ELSE IF e.encerr # "" THEN {"encoder_error"}
-  ELSE LET want == EncC(ty, cv) IN
-       (IF Len(e.encs) > 1 THEN {"nondeterministic_encoding"} ELSE {})
-       \cup (IF \E x \in 1..Len(e.encs) : e.encs[x] # want THEN {"encoding_differs_from_schema"} ELSE {})
-       \cup (IF e.panic # "" THEN {"panic"}
-             ELSE IF ~e.ok THEN {"decoder_rejects_own_encoding"}
-             ELSE (IF e.consumed # -1 /\ e.consumed # Len(e.encs[1]) THEN {"consumed_differs"} ELSE {})
-                  \cup (IF Canon(ty, e.dec) # cv THEN {"decoded_value_differs"} ELSE {}))
+  ELSE UNION {JudgeRT3(e, ty, cv, want) : want \in {EncC(ty, cv)}}
+JudgeRT(e) == UNION {JudgeRT2(e, Schema[e.ty], cv) : cv \in {Canon(Schema[e.ty], e.v)}}
 
 AllocOk(e) == CmpNumLE(e.alloc, LE(AllocK + AllocC * Len(e.in), 8)) <= 0
 
+\* an entry point that is handed the whole message (exact = TRUE: UnmarshalBinary) must consume all of it
+WantOf(e, d) == IF d.ok /\ e.exact /\ d.used # Len(e.in) THEN Fail("trailing bytes") ELSE d
+JudgeDec2(e, ty, want) ==
+  (IF want.ok THEN
+     (IF ~e.ok THEN {"rejects_valid"}
+      ELSE (IF e.consumed # -1 /\ e.consumed # want.used THEN {"consumed_differs"} ELSE {})
+           \cup (IF Canon(ty, e.dec) # want.v THEN {"decoded_value_differs"} ELSE {})
+           \cup (IF e.reencerr # "" \/ e.reenc # Sub(e.in, 1, want.used) THEN {"reencoding_differs"} ELSE {}))
+   ELSE (IF e.ok THEN {"accepts_invalid"} ELSE {}))
+  \cup (IF CheckAlloc /\ ~AllocOk(e) THEN {"allocation_unbounded"} ELSE {})
 JudgeDec(e) ==
-  LET ty == Schema[e.ty] IN
   IF HasField(e, "crash") THEN {"process_died"}
   ELSE IF e.panic # "" THEN {"panic"}
-  ELSE LET want == Dec(ty, e.in) IN
-       (IF want.ok THEN
-          (IF ~e.ok THEN {"rejects_valid"}
-           ELSE (IF e.consumed # -1 /\ e.consumed # want.used THEN {"consumed_differs"} ELSE {})
-                \cup (IF Canon(ty, e.dec) # want.v THEN {"decoded_value_differs"} ELSE {})
-                \cup (IF e.reencerr # "" \/ e.reenc # Sub(e.in, 1, want.used) THEN {"reencoding_differs"} ELSE {}))
-        ELSE (IF e.ok THEN {"accepts_invalid"} ELSE {}))
-       \cup (IF CheckAlloc /\ ~AllocOk(e) THEN {"allocation_unbounded"} ELSE {})
+  ELSE UNION {UNION {JudgeDec2(e, Schema[e.ty], want) : want \in {WantOf(e, d)}} : d \in {Dec(Schema[e.ty], e.in)}}
 
 Judge(e) == IF e.op = "rt" THEN JudgeRT(e) ELSE IF e.op = "dec" THEN JudgeDec(e) ELSE {}
 
-Init == l = 1 /\ devs = {} /\ bad = {}
-Next == /\ l <= Len(Trace)
-        /\ LET e == Trace[l]
-               j == Judge(e)
-               slug(y) == y \o ":" \o e.ty IN
-           /\ bad' = bad \cup {[l |-> l, why |-> slug(y)] : y \in {y \in j : slug(y) \notin KnownDeviations}}
-           /\ devs' = devs \cup {[l |-> l, slug |-> slug(y)] : y \in {y \in j : slug(y) \in KnownDeviations}}
-        /\ l' = l + 1
-TraceSpec == Init /\ [][Next]_<<l, devs, bad>>
+\* The whole trace is judged in ONE constant-level evaluation and the verdict is written by an ASSUME.
+\* (Measured: a definition `Trace == ndJsonDeserialize(TraceFile)` that mentions a CONSTANT is re-evaluated -
+\* the file re-parsed - at every reference; binding the parsed trace with a bounded quantifier evaluates it
+\* exactly once.  The records here are large, so this matters.)
+Slug(e, y) == y \o ":" \o e.ty
+Deviation(e, y) ==
+  IF e.op = "dec" /\ y = "accepts_invalid" /\ e.ty = "MetaCode" /\ Len(e.in) = 0 /\ e.consumed = 0 THEN "metacode_empty_input"
+  ELSE "none"
+BadOf(T, i) == {[l |-> i, why |-> Slug(T[i], y)] : y \in {y \in Judge(T[i]) : Deviation(T[i], y) \notin KnownDeviations}}
+DevsOf(T, i) == {[l |-> i, slug |-> Deviation(T[i], y)] : y \in {y \in Judge(T[i]) : Deviation(T[i], y) \in KnownDeviations}}
+Result(T) == [n |-> Len(T),
+              devs |-> SetToSeq(UNION {DevsOf(T, i) : i \in 1..Len(T)}),
+              bad |-> SetToSeq(UNION {BadOf(T, i) : i \in 1..Len(T)})]
+ASSUME \A T \in {ndJsonDeserialize(TraceFile)} : JsonSerialize(ResultFile, Result(T))
 
-Report == (l = Len(Trace) + 1) =>
-  JsonSerialize(ResultFile, [n |-> l - 1, devs |-> SetToSeq(devs), bad |-> SetToSeq(bad)])
+Init == l = 0 /\ devs = {} /\ bad = {}
+Next == FALSE /\ UNCHANGED <<l, devs, bad>>
+TraceSpec == Init /\ [][Next]_<<l, devs, bad>>
+Report == TRUE
 =============================================================================
